@@ -17,10 +17,11 @@ except Exception:
 meta = {
     'property': pid,
     'summary': am.get('summary'),
-    'needs_to_manifest': am.get('needs'),
+    'needs_to_manifest': am.get('needs') or am.get('needs_to_manifest'),
     'files_changed': am.get('files_changed'),
     'author': 'independent sub-agent given only the property text and a scratch worktree',
-    'agent_tests_run': am.get('tests_run'),
+    'default_path_identical': am.get('default_path_identical'),
+    'agent_tests_run': am.get('tests_run') or am.get('agent_tests_run'),
     'confirmed_by_me': {
         'demo_with_change': 'fails (exit 1)', 'demo_without_change': 'passes (exit 0)',
         'command': 'tools/try_seed.sh %s seeded/%s/patch.diff seeded/%s/demo.py %s   # scratch worktree of /repo HEAD, VMC_REPO=<worktree>' % (name, name, name, pid),
